@@ -34,7 +34,7 @@ class IntsToStrings(Harness):
                    "NumPy composite; tied to IEEE conversion by the QF_BVFP conversion lemma (prelude)",)
     bounds = {"quick": "batches of 1 number over the whole int64 range; batches of 2 with ranges [-10,10] x int64 and "
                        "int64 x [-10,10]",
-              "thorough": "adds batches of 2 over int64 x int64 and batches of 3 (one full-range row, others |n|<=10^4)"}
+              "thorough": "adds batches of 2 over int64 x int64 and batches of 3 (one full-range row, others |n|<=10^4), both cut into 5 bands of one row whose union is int64"}
 
     def skeletons(self, tier, seed):
         full = [I64_MIN, I64_MAX]
@@ -43,8 +43,12 @@ class IntsToStrings(Harness):
         sk = [dict(ranges=[full]), dict(ranges=[tiny, full]), dict(ranges=[full, tiny])]
         if tier == "thorough":
             sk += [dict(ranges=[small, full]), dict(ranges=[full, small])]
-            sk += [dict(ranges=[full, full])]
-            sk += [dict(ranges=[[-10 ** 4, 10 ** 4], full, [-10 ** 4, 10 ** 4]])]
+            # int64 x int64 and the 3-row batch, cut into bands of the first full-range row so that every skeleton
+            # stays well inside its budget on a loaded machine (the union of the bands is the whole int64 range)
+            bands = [[I64_MIN, -10 ** 12 - 1], [-10 ** 12, -10 ** 6 - 1], [-10 ** 6, 10 ** 6], [10 ** 6 + 1, 10 ** 12],
+                     [10 ** 12 + 1, I64_MAX]]
+            sk += [dict(ranges=[b, full]) for b in bands]
+            sk += [dict(ranges=[[-10 ** 4, 10 ** 4], b, [-10 ** 4, 10 ** 4]]) for b in bands]
         return sk
 
     def inputs(self, skel, V):
